@@ -52,6 +52,16 @@ def msg_object(payload="either", immutable=None):
         st.inputs[name] = ("obj", descr)
         return st.alloc("obj", cls, fields=fields)
 
+    def native(d):
+        """real UBXMessage carrying the decoded field values (bypassing the constructor)"""
+        from pyubx2 import UBXMessage
+        m = object.__new__(UBXMessage)
+        object.__setattr__(m, "_parsebf", True)
+        for k, v in (d or {}).items():
+            object.__setattr__(m, k, v)
+        return m
+
+    build.native = native
     return build
 
 
@@ -65,6 +75,8 @@ LEN_CK_POST = [
 
 
 def install(reg):
+    # attribute stores / deletions are the semantics of assignment statements: always executed from the body
+    reg.force_inline.update({M + "__setattr__", M + "__delattr__"})
     reg.add(Contract(
         M + "serialize",
         params={"self": msg_object()},
@@ -83,8 +95,30 @@ def install(reg):
                          ensures=[("getter", f"result == self.{field}") if field != "_payload" else
                                   ("getter", "(result is None and self._payload is None) or result == self._payload")],
                          raises={}, modifies=[]))
+    for meth, sig in (("__setattr__", {"name": ("const", "iTOW"), "value": "int"}), ("__delattr__", {"name": ("const", "_mode")})):
+        reg.add(Contract(
+            M + meth, params={"self": msg_object(), **sig},
+            ensures=[("mutable-only-during-construction", "old(self._immutable) == False")],
+            raises={"UBXMessageError": "old(self._immutable) == True"},
+            raises_iff={"UBXMessageError": "old(self._immutable) == True"},
+            ensures_exc=[("frame-unchanged", "same_frame(self, old(snapshot(self)))")],
+            modifies=["self.iTOW", "self._mode"]))
+    reg.add(Contract(
+        M + "__repr__", params={"self": msg_object()},
+        ensures=[("constructor-expression",
+                  "result == ('UBXMessage(' + repr_of(self._ubxClass) + ', ' + repr_of(self._ubxID) + ', ' + "
+                  "repr_of(self._mode) + ')' if self._payload is None else 'UBXMessage(' + repr_of(self._ubxClass) + "
+                  "', ' + repr_of(self._ubxID) + ', ' + repr_of(self._mode) + ', payload=' + repr_of(self._payload) + ')')")],
+        raises={}, modifies=[], returns="str"))
     reg.add(Contract(M + "length", params={"self": msg_object()},
                      ensures=[("getter", "result == u_le(self._length)")], raises={}, modifies=[], returns="int"))
+    reg.add(Contract(
+        M + "_set_attribute_cfgval", params={},
+        notes="inlined in instance mode; only the loop contract is used there (proved on every instance path)",
+        loops={1: Loop(inv=[("counter", "0 <= i <= 4"), ("offset", "offset >= old_offset")],
+                       kinds={"key": "int", "keyname": "unbound", "att": "unbound", "atts": "unbound",
+                              "valb": "unbound", "val": "unbound"},
+                       decreases="(cfglen - offset, 4 - i)")}))
     # generic constructor contract: what every caller may rely on, whatever the class/ID (proved per definition
     # instance and for the residual unknown-ID case in instance mode; used modularly by parse and config_*)
     reg.add(Contract(
@@ -101,3 +135,18 @@ def install(reg):
         raises={"UBXMessageError": None, "UBXTypeError": None},
         fresh_fields={"_length": ("bytesn", 2), "_checksum": ("bytesn", 2)},
         modifies=["self.*"]))
+
+
+def immutable_any_name(meth):
+    """once initialised (_immutable True), __setattr__/__delattr__ refuse *every* attribute name (opaque symbolic name)
+    and leave the stored frame untouched"""
+    from pvc.values import SStr, Opaque
+    sig = {"name": ("const", SStr((Opaque("any-attribute-name"),)))}
+    if meth == "__setattr__":
+        sig["value"] = "int"
+    return Contract(
+        M + meth, params={"self": msg_object(immutable=True), **sig},
+        ensures=[("never-returns", "False")],
+        raises={"UBXMessageError": None},
+        ensures_exc=[("frame-unchanged", "same_frame(self, old(snapshot(self)))")],
+        modifies=[])
